@@ -78,7 +78,15 @@ TEnd == /\ l <= Len(Trace) /\ Trace[l].ev = "end"
         /\ skip' = TRUE
         /\ (skip \/ EndDiff(Trace[l].obs) = {} \/ PrintT(<<"DIFF", l, "end", EndDiff(Trace[l].obs)>>))
 
-TNext == TReset \/ TStep \/ TEnd
+\* the harness waited until the node's seenUpdates table was empty (short expiry time in these segments)
+TExpire == /\ l <= Len(Trace) /\ Trace[l].ev = "expire"
+           /\ l' = l + 1
+           /\ ns' = [ns EXCEPT !.seen = {}]
+           /\ last' = [NoStep EXCEPT !.class = "expire", !.conn = ns.conn, !.known = ns.known, !.info = ns.info]
+           /\ UNCHANGED <<hist, skip, acc>>
+           /\ PrintT(<<"CLASS", "expire">>)
+
+TNext == TReset \/ TStep \/ TEnd \/ TExpire
 
 TSpec == TInit /\ [][TNext]_tvars
 
